@@ -10,7 +10,7 @@
      inputs_ok / chunk_inputs_ok   non-empty batch, every row has T cells, lens <= T, every row legal
      mselect / mscatter / scatter2 / select2   flat masked_select / masked_scatter               (Model)
      place m dst src        what masked_scatter writes into one row (total version)              (Proofs) *)
-From Coq Require Import List Arith Bool ZArith QArith.
+From Coq Require Import List Arith Bool ZArith QArith Lia.
 From PV Require Import C09.Model C09.Spec C09.Proofs C09.Buffers C09.ProofsPad C09.ChunkRow
      C09.ProofsChunk C09.ProofsTop.
 Import ListNotations.
@@ -189,9 +189,8 @@ Example c09_pad_nonvacuous :
   pad_variable 3 0 9 Reflect [[1; 2; 3]; [4; 5; 6]] [3; 2] [2; 0] [1; 1]
   = Ok [[3; 2; 1; 2; 3; 2]; [4; 5; 4; 9; 9; 9]].
 Proof.
-  split; [|reflexivity]. unfold inputs_ok. repeat split; try discriminate;
-    destruct n as [|[|n]]; cbn in *; auto with arith; exfalso; apply (Nat.lt_irrefl 0);
-    repeat apply Nat.succ_lt_mono in H; inversion H.
+  split; [|vm_compute; reflexivity]. unfold inputs_ok. repeat (split; [first [discriminate | reflexivity]|]).
+  intros [|[|n]] H; [vm_compute; auto with arith ..|]. exfalso. cbn [length] in H. lia.
 Qed.
 
 (* reflect; row 0: a slice lying wholly in the right padding (the special case), row 1: negative start *)
@@ -203,19 +202,18 @@ Example c09_chunk_nonvacuous :
     firstn 2 (nth 0 out []) = [2; 1] /\ firstn 5 (nth 1 out []) = [7; 6; 5; 6; 7].
 Proof.
   split.
-  - unfold chunk_inputs_ok. repeat split; try discriminate;
-      destruct n as [|[|n]]; cbn in *; auto with arith; exfalso; apply (Nat.lt_irrefl 0);
-      repeat apply Nat.succ_lt_mono in H; inversion H.
+  - unfold chunk_inputs_ok. repeat (split; [first [discriminate | reflexivity]|]).
+    intros [|[|n]] H; [vm_compute; auto with arith ..|]. exfalso. cbn [length] in H. lia.
   - eexists. split; [vm_compute; reflexivity|]. split; reflexivity.
 Qed.
 
 (* regression (fix fbf5037): an empty time dimension no longer forces every reported length to 0 *)
 Example c09_chunk_T0_example :
-  chunk_inputs_ok 0 Constant [[]; []] [(0, 3)%Z; (2, 1)%Z] (Some [0; 0]) /\
+  chunk_inputs_ok 0 Constant ([[]; []] : list (list nat)) [(0, 3)%Z; (2, 1)%Z] (Some [0; 0]) /\
   chunk_by_slices 0 0 7 Constant [[]; []] [(0, 3)%Z; (2, 1)%Z] (Some [0; 0]) = Ok ([[7; 7; 7]; [7; 7; 7]], [3; 0]).
 Proof.
-  split; [|reflexivity]. unfold chunk_inputs_ok. repeat split; try discriminate;
-    destruct n as [|[|n]]; cbn in *; auto with arith.
+  split; [|vm_compute; reflexivity]. unfold chunk_inputs_ok. repeat (split; [first [discriminate | reflexivity]|]).
+  intros [|[|n]] H; [vm_compute; auto with arith ..|]. exfalso. cbn [length] in H. lia.
 Qed.
 
 Example c09_shift_nonvacuous :
@@ -223,9 +221,8 @@ Example c09_shift_nonvacuous :
   random_shift 4 0 9 Reflect (1 # 2) 1 true [[1; 2; 3; 4]; [5; 6; 7; 8]] [4; 2] [3 # 4; 1 # 2]%Q [1 # 2; 3 # 4]%Q
   = Ok ([[2; 1; 2; 3; 4; 3; 2]; [5; 6; 5; 9; 9; 9; 9]], [7; 3]).
 Proof.
-  split; [|split; [|reflexivity]].
-  - cbn. repeat split; try (intros [|[|n]] H; cbn in *; auto with arith; exfalso;
-      repeat apply Nat.succ_lt_mono in H; inversion H); discriminate.
-  - intros [|[|n]] H; cbn in *; try (split; [discriminate|reflexivity]).
-    exfalso. repeat apply Nat.succ_lt_mono in H. inversion H.
+  split; [|split; [|vm_compute; reflexivity]].
+  - cbn [shift_mode_ok]. split; [|split; discriminate].
+    intros [|[|n]] H; [vm_compute; auto with arith ..|]. exfalso. cbn [length] in H. lia.
+  - intros [|[|n]] H; [split; [discriminate|reflexivity] ..|]. exfalso. cbn [length] in H. lia.
 Qed.
